@@ -266,8 +266,7 @@ def shared(ctx):
         ctx.broken("no shared acquisition method of deferred_guarded instantiated")
 
 
-def capture(ctx):
-    rid = "C06.capture"
+def capture(ctx, rid="C06.capture"):
     ctx.rule(rid, "queued work runs inside std::packaged_task; the direct modify_async path runs the functor inside "
              "try/catch(...) set_exception", floor=4)
     fb = ctx.fb
